@@ -6,6 +6,7 @@ package main
 
 import (
 	"hash/maphash"
+	"strings"
 )
 
 // value sets (DESIGN C07)
@@ -160,6 +161,43 @@ func forEachCase(ep *EP, thorough bool, fn caseFn) int {
 			}
 		}
 	}
+	// text: every maximal run of ASCII digits in a seed replaced by the extremes of a decimal count/length field
+	for _, sd := range ep.Seeds {
+		if e.stop || !printable(sd) {
+			continue
+		}
+		for p := 0; p < len(sd); {
+			if sd[p] < '0' || sd[p] > '9' {
+				p++
+				continue
+			}
+			q := p
+			for q < len(sd) && sd[q] >= '0' && sd[q] <= '9' {
+				q++
+			}
+			for _, v := range decimalExtremes {
+				buf = append(append(append(buf[:0], sd[:p]...), v...), sd[q:]...)
+				e.emit(buf, "decimal-field")
+			}
+			p = q
+		}
+	}
+	// name-compression pointers (DNS-style codecs): at every position a pointer C0|hi lo to every offset of the seed
+	if strings.HasPrefix(ep.Name, "llmnr.Decode") || strings.HasPrefix(ep.Name, "nbtns.NBTNSPacket") {
+		for _, sd := range ep.Seeds {
+			L := len(sd)
+			if e.stop || L > 200 {
+				continue
+			}
+			for p := 0; p+2 <= L; p++ {
+				for q := 0; q < L; q++ {
+					buf = append(buf[:0], sd...)
+					buf[p], buf[p+1] = 0xC0|byte(q>>8), byte(q)
+					e.emit(buf, "pointer")
+				}
+			}
+		}
+	}
 	// small scope
 	if !ep.NoSmall {
 		pre := ep.Prefix
@@ -214,4 +252,19 @@ func allStrings(e *enumerator, prefix []byte, alpha []byte, n int, gen string) {
 			}
 		}
 	}
+}
+
+var decimalExtremes = []string{"0", "1", "255", "256", "65535", "65536", "268435456", "2147483647", "2147483648", "4294967295", "4294967296",
+	"9223372036854775807", "9223372036854775808", "18446744073709551615", "99999999999999999999", "-1"}
+
+func printable(b []byte) bool {
+	if len(b) == 0 {
+		return false
+	}
+	for _, c := range b {
+		if c < 0x20 && c != '\n' && c != '\t' || c == 0x7f {
+			return false
+		}
+	}
+	return true
 }
